@@ -72,11 +72,20 @@ def run(chk):
     # ---- reader side defines marker and result file names
     marker = result_file = None
     skip_append = None
+    # the skip list is found by its role, not by its name: a local list that is appended to and later consulted with `in` / `not in`
+    appended = {}
     for n in ast.walk(f):
-        if isinstance(n, ast.Call) and isinstance(n.func, ast.Attribute) and n.func.attr == 'append' and isinstance(n.func.value, ast.Name) and n.func.value.id == 'cases_to_skip':
-            skip_append = skip_append or n
-    if skip_append is None:
-        raise AnalysisError('skip list (cases_to_skip.append) not found')
+        if isinstance(n, ast.Call) and isinstance(n.func, ast.Attribute) and n.func.attr == 'append' and isinstance(n.func.value, ast.Name):
+            appended.setdefault(n.func.value.id, []).append(n)
+    tested = set()
+    for n in ast.walk(f):
+        if isinstance(n, ast.Compare) and any(isinstance(o, (ast.In, ast.NotIn)) for o in n.ops):
+            tested |= {c.id for c in n.comparators if isinstance(c, ast.Name)}
+    cands = [nm for nm in appended if nm in tested]
+    if len(cands) != 1:
+        raise AnalysisError(f'multiprocessing_run: skip list not identified (lists that are appended to and membership-tested: {cands})')
+    skip_name = cands[0]
+    skip_append = min(appended[skip_name], key=lambda n: n.lineno)
     # the guard of the first skip append: isfile(<path built from a constant>)
     outer_nodes = [n for n in ast.walk(f)]
     assigns = {}
@@ -99,7 +108,7 @@ def run(chk):
                 guard_if = (n, st)
     if guard_if is None:
         chk.ob('R18.2', 'a case is put on the skip list only when its success marker exists (guard dominance)', False,
-               'cases_to_skip.append(...) is not guarded by any os.path.isfile(<marker>) test: unfinished cases would be skipped on restart', m.where(sa_stmt), method='CFG edge-removal reachability')
+               f'{skip_name}.append(...) is not guarded by any os.path.isfile(<marker>) test: unfinished cases would be skipped on restart', m.where(sa_stmt), method='CFG edge-removal reachability')
         return
     gname = [x.id for x in ast.walk(guard_if[1].test) if isinstance(x, ast.Name) and x.id in assigns]
     for nm in gname:
@@ -199,7 +208,7 @@ def run(chk):
         ok = False; why = ''
         if encl is f:
             for l in ast.walk(f):
-                if isinstance(l, ast.For) and any(x is n for x in ast.walk(l)) and any(isinstance(x, ast.Name) and x.id == 'cases_to_skip' for x in ast.walk(l.iter)):
+                if isinstance(l, ast.For) and any(x is n for x in ast.walk(l)) and any(isinstance(x, ast.Name) and x.id == skip_name for x in ast.walk(l.iter)):
                     ok = True
             why = 'read in the driver outside the loop over the skip list (whose members are marked cases by R18.2)'
         if not ok and isinstance(encl, ast.FunctionDef):
@@ -271,11 +280,11 @@ def run(chk):
                        f'appends {ast.unparse(arg)[:70]} (a bare {type(arg).__name__.lower()})', m.where(n), key=f'R18.5|{tgt}.append', method='AST def-use')
 
     # ---- R18.6 skip set consistency
-    uses = [n for n in outer_nodes if isinstance(n, ast.Name) and n.id == 'cases_to_skip']
+    uses = [n for n in outer_nodes if isinstance(n, ast.Name) and n.id == skip_name]
     stores = sorted(n.lineno for n in uses if isinstance(n.ctx, ast.Store))
     build_loop = next((n for n in outer_nodes if isinstance(n, ast.If) and isinstance(n.test, ast.Compare) and any(isinstance(o, ast.In) for o in n.test.ops)
-                       and 'cases_to_skip' in ast.unparse(n.test)), None)
-    load_loop = next((n for n in outer_nodes if isinstance(n, ast.For) and ast.unparse(n.iter) == 'cases_to_skip'), None)
+                       and any(isinstance(x, ast.Name) and x.id == skip_name for x in ast.walk(n.test))), None)
+    load_loop = next((n for n in outer_nodes if isinstance(n, ast.For) and ast.unparse(n.iter) == skip_name), None)
     ok = build_loop is not None and load_loop is not None and not any(build_loop.lineno < s < load_loop.lineno for s in stores) and \
         any(isinstance(x, ast.Continue) for x in ast.walk(build_loop))
     chk.ob('R18.6', 'the cases skipped when building work are exactly those reloaded from disk (same container, not reassigned in between)', ok,
